@@ -50,7 +50,7 @@ from ..core import Ctx, HarnessError, Violation, hyp_run, shard_run
 PID = "C15"
 LEVEL = "exploration"
 EXHAUSTIVE = False
-RULE = ("W: target T in {DHTCommunity, DHTDiscoveryCommunity} + 4 requester endpoints (keys k0..k2; k0 at two "
+RULE = ("[R: the reader or a server may itself be one of the value signers] W: target T in {DHTCommunity, DHTDiscoveryCommunity} + 4 requester endpoints (keys k0..k2; k0 at two "
         "addresses; any (key, source address) combination can be produced by injecting a really signed packet from "
         "another endpoint's address) + an observer; op lists of 3..40 (quick) / 3..70 (thorough) ops expanded by a "
         "seeded PRNG from Hypothesis-drawn (seed, length, variant, warm-up, initial table size), optionally opened by "
